@@ -7,7 +7,7 @@ from vlib import Case, hx
 from gen import sctelib as L
 
 PROP = "C08"
-PROOF_FILES = ["Properties/C08.v"]
+PROOF_FILES = ["Properties/C08.v", "Properties/ModelTie.v"]
 RULE = ("a case is non-trivial when it is a distinct supported section (splice_null / time_signal with time / "
         "splice_insert, any descriptors) or a distinct rejected section of one of the four rejection classes; the flag "
         "lattice of splice_insert (cancel | out x {program,component} x {immediate,timed} x {no break, break auto 0/1}) and of "
